@@ -8,6 +8,12 @@ non-default default_col_type and sorted=False, Mixed / Float / Int / Series colu
 implementation's result compared (a) in Coq with Spec/Functional.v (oracle) and Model/Functional.v (model) on the same
 table and the tabulated function, (b) on the Python side with a by-value reference, and audited for purity (argument
 unchanged, nothing shared between argument and result, writes to either side do not reach the other).
+repeat cases: the three functions applied 2-5 times to ONE table object which is changed in place in between (rows added /
+removed / added after removal / deleted, cells and slices written, columns added / deleted / renamed / re-assigned, series
+depth changed, derivations thrown away), mostly tables with a SeriesColumn next to plain columns, predicates that select the
+rows a resize added; every application is judged like a single case on the present value of the table.
+curry shapes: wrapped functions with keyword-only settings, *rest, **options, defaults, positional-only markers, annotations,
+lambdas, staticmethods, functools.partial objects (n = the positional parameters still open).
 typed_* cases: the same on tables whose IntColumn / FloatColumn cells are the values on which Python numbers and NumPy
 scalars behave differently (integers near 2**31, 2**31.5, 2**62; 0.0, -0.0, the largest / smallest doubles) with row and
 cell functions whose result depends on the exact type and arithmetic of the cell they receive (type(x).__name__,
@@ -39,14 +45,97 @@ import pyobs as O
 #       that depends on the exact type or arithmetic of its argument (type(x) is float, isinstance(x, int), x * x beyond
 #       2**63, 1 / x on 0.0, repr(x), json.dumps(x)) gives other results than f(col[i]).  map_/filter_ on a DataMatrix
 #       (Row.__iter__ -> col[i]) and on a MixedColumn pass the cells themselves; those are in the default stream.
+#  (F7) curry(obj.method) / curry(Class.a_classmethod) / curry(callable_object) with n positional parameters: applied to
+#       the n arguments in any grouping it returns another curried callable and never calls the function
+#       (_count_unbound_arguments counts `self` / `cls`, which getfullargspec lists although it is already bound).
 INCLUDE_PENDING_FINDINGS = False
 
 
-def make_f(n):
+# Shapes of the wrapped function.  In every shape the function has exactly n POSITIONAL parameters (what
+# inspect.getfullargspec(f).args lists); the extras (keyword-only settings with a default, *rest, **options, defaults of
+# positional parameters, annotations, positional-only markers) do not change what f(*args) with n arguments means.
+# The function returns the tuple of its n positional arguments and raises AssertionError if an extra was filled.
+SHAPES = ['plain', 'kwonly', 'kwonly2', 'kwargs', 'varargs', 'both', 'kwonly_kwargs', 'defaults', 'defaults_kwonly', 'posonly',
+          'posonly_mixed', 'annotated', 'lambda', 'static', 'via_class', 'partial_in', 'partial_kw']
+# (F7) curry(obj.method) / curry(Class.classmethod) / curry(callable_object): getfullargspec lists `self` / `cls`, which
+#      is already bound, so the curried function waits for one argument more than the callable takes and never calls it.
+PENDING_SHAPES = ['bound_method', 'class_method', 'callable_object']
+
+
+def make_f(n, shape='plain'):
+    """-> (f, has_name): a callable with n positional parameters that returns the tuple it received"""
+    import functools
     ns = {}
-    params = ', '.join('a%d' % i for i in range(n))
-    exec('def f%d(%s):\n    "doc of f%d"\n    return (%s)\n' % (n, params, n, params + (',' if n else '')), ns)
-    return ns['f%d' % n]
+    names = ['a%d' % i for i in range(n)]
+    ret = '(%s)' % (', '.join(names) + (',' if n else ''))
+    doc = '"doc of f%d"' % n
+    check = ''
+    params = list(names)
+    if shape in ('plain', 'static', 'via_class', 'bound_method', 'class_method', 'callable_object'):
+        pass
+    elif shape == 'kwonly':
+        params = names + ['*', "unit='px'"]
+        check = "    assert unit == 'px', unit\n"
+    elif shape == 'kwonly2':
+        params = names + ['*', 'unit=None', 'scale=1.5']
+        check = '    assert unit is None and scale == 1.5\n'
+    elif shape == 'kwargs':
+        params = names + ['**options']
+        check = '    assert not options, options\n'
+    elif shape == 'varargs':
+        params = names + ['*rest']
+        check = '    assert not rest, rest\n'
+    elif shape == 'both':
+        params = names + ['*rest', '**options']
+        check = '    assert not rest and not options, (rest, options)\n'
+    elif shape == 'kwonly_kwargs':
+        params = names + ['*', 'flag=False', '**options']
+        check = '    assert flag is False and not options\n'
+    elif shape == 'defaults':
+        params = names[:1] + ['%s=%d' % (nm, -100 - i) for i, nm in enumerate(names[1:])]
+    elif shape == 'defaults_kwonly':
+        params = names[:-1] + ['%s=None' % names[-1], '*', 'strict=True']
+        check = '    assert strict is True\n'
+    elif shape == 'posonly':
+        params = names + ['/']
+    elif shape == 'posonly_mixed':
+        params = names[:1] + ['/'] + names[1:] + ['*', 'k=0']
+        check = '    assert k == 0\n'
+    elif shape == 'annotated':
+        params = ['%s: int' % names[0]] + ["%s: 'anything' = None" % nm for nm in names[1:]] + ['*', 'verbose: bool = False']
+        check = '    assert verbose is False\n'
+    elif shape == 'lambda':
+        exec('f%d = lambda %s, **kw: %s' % (n, ', '.join(names), ret), ns)
+        return ns['f%d' % n], True
+    elif shape == 'partial_in':
+        # two more parameters in front, bound through functools.partial before currying
+        exec('def g(p, q, %s):\n    assert (p, q) == (\'P\', \'Q\')\n    return %s\n' % (', '.join(names), ret), ns)
+        return functools.partial(functools.partial(ns['g'], 'P'), 'Q'), False
+    elif shape == 'partial_kw':
+        exec('def g(%s, *, unit=None, **options):\n    assert unit == \'cm\' and not options\n    return %s\n' % (
+            ', '.join(names), ret), ns)
+        return functools.partial(ns['g'], unit='cm'), False
+    else:
+        raise ValueError(shape)
+    if shape in ('static', 'via_class', 'bound_method', 'class_method', 'callable_object'):
+        first = {'static': '', 'class_method': 'cls, '}.get(shape, 'self, ')
+        deco = {'static': '    @staticmethod\n', 'class_method': '    @classmethod\n'}.get(shape, '')
+        mname = '__call__' if shape == 'callable_object' else 'f%d' % n
+        exec('class K(object):\n%s    def %s(%s%s):\n        %s\n        return %s\n' % (
+            deco, mname, first, ', '.join(names), doc, ret), ns)
+        K = ns['K']
+        if shape == 'static':
+            return getattr(K(), 'f%d' % n), True
+        if shape == 'class_method':
+            return getattr(K, 'f%d' % n), True
+        if shape == 'bound_method':
+            return getattr(K(), 'f%d' % n), True
+        if shape == 'callable_object':
+            return K(), False
+        # via_class: the plain function taken from the class, with the instance bound through functools.partial
+        return functools.partial(getattr(K, 'f%d' % n), K()), False
+    exec('def f%d(%s):\n    %s\n%s    return %s\n' % (n, ', '.join(params), doc, check, ret), ns)
+    return ns['f%d' % n], True
 
 
 def compositions(n):
@@ -293,7 +382,9 @@ class C19:
             'random interleaving); the same over a pool of arguments that compare equal but differ in type, value or '
             'identity (1 / 1.0 / True / int subclass, 0 / 0.0 / -0.0 / False, str / str subclass, NaN objects, tuples, '
             'unhashable lists and dicts), f returning the tuple it received, compared by (type, repr) tokens in Coq and by '
-            'identity in Python; out-of-quantifier calls (empty chunks, too many arguments, calling a value, keywords). '
+            'identity in Python; out-of-quantifier calls (empty chunks, too many arguments, calling a value, keywords); '
+            'all of it also for 16 other shapes of the wrapped function (keyword-only settings, *rest, **options, defaults, '
+            'positional-only, annotations, lambda, staticmethod, functools.partial objects). '
             'map_/filter_/setcol: a table from the zoo (11 derivation routes composed up to 3 deep, aliases before/after, '
             'non-default flags, Series columns), a recorded row/cell function from 6-9 families, result compared with '
             'Spec/Functional.v and Model/Functional.v on the tabulated function, with a by-value Python reference, and '
@@ -301,7 +392,9 @@ class C19:
             'with int64-edge integers / 0.0 / extreme doubles and 16 families of row/cell functions sensitive to the exact '
             'Python type and arithmetic of the cell (type name, isinstance, products and shifts beyond 2**63, 1/x, x**400, '
             'repr, json), expected = f on the cells as read (dm[name][i]), the reference application heads the function '
-            'table given to Coq, an exception of f is judged as the expected outcome. non-trivial: runs f at '
+            'table given to Coq, an exception of f is judged as the expected outcome; repeat: 2-5 applications to ONE table '
+            'object changed in place in between (resize, row deletion, cell / slice writes, columns added / deleted / '
+            'renamed / re-assigned, series depth), 65 % with a SeriesColumn, predicates selecting the added rows. non-trivial: runs f at '
             'least once / table has rows; distinct by (kind, route, family, shape)')
     trusted_base = [
         'Coq 8.16.1 kernel (coqc; vm_compute for evaluating cases; no native_compute)',
@@ -321,12 +414,18 @@ class C19:
     ]
 
     # ================================================================== curry
-    def _run(self, n, paths, rich=False, sched=None, kw=None):
+    def _run(self, n, paths, rich=False, sched=None, kw=None, shape='plain'):
+        """Every call into the implementation is inside a try: an exception (of any class) is the observation 'err'
+        for that path; the classes other than TypeError are listed in the third component."""
         from datamatrix import functional as fnc
-        f = make_f(n)
-        root = fnc.curry(f)
+        f, has_name = make_f(n, shape)
         pyfail = None
-        if getattr(root, '__name__', None) != f.__name__ or getattr(root, '__doc__', None) != f.__doc__:
+        raised = []
+        try:
+            root = fnc.curry(f)
+        except Exception as e:      # noqa: BLE001
+            return ['err' for _ in paths], 'curry(f) raised %r for a function of shape %s' % (e, shape), [O.exn_name(e)]
+        if has_name and (getattr(root, '__name__', None) != f.__name__ or getattr(root, '__doc__', None) != f.__doc__):
             pyfail = 'curry wrapper lost __name__/__doc__: %r %r' % (getattr(root, '__name__', None),
                                                                        getattr(root, '__doc__', None))
         pool = rich_pool() if rich else None
@@ -359,6 +458,9 @@ class C19:
                             obj = obj(*[arg(a) for a in chunk])
                     except TypeError:
                         obj = 'err'
+                    except Exception as e:      # noqa: BLE001
+                        obj = 'err'
+                        raised.append(O.exn_name(e))
                 objs[key] = obj
             state[pi] = (key, obj)
         observed = []
@@ -376,15 +478,28 @@ class C19:
                         [tok_key(r) for r in obj], [tok_key(s) for s in sent])
                 observed.append([toks.get(tok_key(v), -1) for v in obj] if isinstance(obj, tuple) else [-2])
             else:
-                observed.append([int(v) for v in obj])
-        return observed, pyfail
+                observed.append([int(v) for v in obj] if isinstance(obj, tuple) and all(type(v) is int for v in obj)
+                                else [10 ** 9])
+        return observed, pyfail, raised
 
     def rerun(self, inp):
         if 'probe' in inp:
             return self.probe(inp['probe'], inp['seed'])
+        try:
+            with warnings.catch_warnings():
+                warnings.simplefilter('ignore')
+                return self._rerun_curry(inp)
+        except Exception as e:      # noqa: BLE001  -- never a crash of the generator: the case is judged (and fails)
+            import traceback
+            return {'input': inp, 'observed': None, 'oracle': 'true', 'model': 'true', 'nontrivial': False,
+                    'pyfail': 'curry case raised %r (%s)' % (e, traceback.format_exc(limit=3).replace('\n', ' | ')[-400:]),
+                    'sig': 'crashed|%s' % json_compact(inp), 'tags': inp.get('tags', []) + ['crashed']}
+
+    def _rerun_curry(self, inp):
         n, paths = inp['n'], inp['paths']
         rich = bool(inp.get('rich'))
-        observed, pyfail = self._run(n, paths, rich, inp.get('sched'), inp.get('kw'))
+        shape = inp.get('shape', 'plain')
+        observed, pyfail, raised = self._run(n, paths, rich, inp.get('sched'), inp.get('kw'), shape)
         toks = rich_tokens(rich_pool()) if rich else None
         pool = rich_pool() if rich else None
         o_parts, m_parts = [], []
@@ -403,12 +518,12 @@ class C19:
                 pyfail = 'a curried function accepted keyword arguments'
             o_parts, m_parts = o_parts[1:], m_parts[1:]
         return {
-            'input': inp, 'observed': observed, 'pyfail': pyfail,
+            'input': inp, 'observed': observed if not raised else {'paths': observed, 'raised': raised}, 'pyfail': pyfail,
             'oracle': '(' + ' && '.join(o_parts) + ')' if o_parts else 'true',
             'model': '(' + ' && '.join(m_parts) + ')' if m_parts else 'true',
             'nontrivial': calls_f,
-            'sig': '%d|%s|%s' % (n, 'rich' if rich else 'int', sorted(map(str, paths))),
-            'tags': inp.get('tags', []) + ['arity%d' % n],
+            'sig': '%d|%s|%s|%s' % (n, 'rich' if rich else 'int', shape, sorted(map(str, paths))),
+            'tags': inp.get('tags', []) + ['arity%d' % n, 'shape:' + shape],
         }
 
     # ================================================================== tables
@@ -471,11 +586,11 @@ class C19:
 
     ALIASES = [('a', 'b'), ('a', 'A'), ('f', 'g'), ('f', 'e'), ('i', 'j'), ('u', 'v'), ('i', 'h')]
 
-    def _zoo(self, sub, series_ok=False, extreme=False):
+    def _zoo(self, sub, series_ok=False, extreme=False, series_p=0.2):
         """-> (dm, route tags)."""
         from datamatrix import IntColumn, FloatColumn, operations as ops
         n = sub.choice([0, 1, 2, 3, 3, 4, 4, 5, 6, 7])
-        series = series_ok and sub.random() < 0.2
+        series = series_ok and sub.random() < series_p
         dm = self._base(sub, n, series, extreme=extreme)
         tags = ['extreme'] if extreme else []
         if sub.random() < 0.2:
@@ -723,9 +838,27 @@ class C19:
         return fam, lambda d: {'i': [2.7, '3', True, -1.5, 4.0][h(d) % 5], 'f': [None, 'q', 3, '2.5', True][h(d, 1) % 5],
                                'a': ['3', 4.0, '2.5', True, ' 7 '][h(d, 2) % 5]}
 
-    def _rowpred(self, sub, dm):
-        fam = sub.choice(['i_ge', 'u_even', 'a_text', 'true', 'false', 'a_truthy', 'f_notnan', 'mixed'])
+    def _rowpred(self, sub, dm, extra=False):
+        """extra: also the predicates that pick out rows added by a resize (blank '' / nan / 0 cells, or the values the
+        harness writes into added rows: u >= 100) and predicates on the cells of a series column"""
+        fams = ['i_ge', 'u_even', 'a_text', 'true', 'false', 'a_truthy', 'f_notnan', 'mixed']
+        if extra:
+            fams = fams + ['u_blank', 'u_blank', 'f_nan', 'u_added', 'u_added', 'i_zero', 'true'] + \
+                (['s_first', 's_nan'] if 's' in dm._cols else [])
+        fam = sub.choice(fams)
         k = sub.choice([-1, 0, 1, 2])
+        if fam == 'u_blank':
+            return fam, lambda d: isinstance(d['u'], str) and d['u'] == ''
+        if fam == 'f_nan':
+            return fam, lambda d: d['f'] != d['f']
+        if fam == 'u_added':
+            return fam, lambda d: isnum(d['u']) and d['u'] >= 100 + k
+        if fam == 'i_zero':
+            return fam, lambda d: d['i'] == 0
+        if fam == 's_first':
+            return fam, lambda d: bool(len(d['s']) and float(d['s'][0]) >= k)
+        if fam == 's_nan':
+            return fam, lambda d: bool(len(d['s']) and d['s'][-1] != d['s'][-1])
         if fam == 'i_ge':
             return fam, lambda d: d['i'] >= k
         if fam == 'u_even':
@@ -944,12 +1077,12 @@ class C19:
             return '(Raise %s)' % outcome[1]
         return '(Ok %s)' % lit(outcome[1])
 
-    def _case_map_dm(self, sub, typed=False):
+    def _case_map_dm(self, sub, typed=False, given=None):
         from datamatrix import functional as fnc, DataMatrix
-        dm, tags = self._zoo(sub, series_ok=True, extreme=typed)
+        dm, tags = given if given else self._zoo(sub, series_ok=True, extreme=typed)
         fam, fn = self._rowfun_typed(sub, dm) if typed else self._rowfun(sub, dm)
         before = self._snap(dm)
-        lits = self._lits(dm) if 'series' not in tags else None
+        lits = self._lits(dm) if 'series' not in tags else None       # (_lits is None for any table with a SeriesColumn)
         rec = Recorder(fn, True)
         ref = RefCalls(fn)
         explicit = sub.random() < 0.5
@@ -1008,12 +1141,12 @@ class C19:
             res['tags'] = res['tags'] + ['python-side-only']
         return res
 
-    def _case_filter_dm(self, sub, typed=False):
+    def _case_filter_dm(self, sub, typed=False, given=None):
         from datamatrix import functional as fnc, DataMatrix
-        dm, tags = self._zoo(sub, series_ok=True, extreme=typed)
-        fam, fn = self._rowpred_typed(sub, dm) if typed else self._rowpred(sub, dm)
+        dm, tags = given if given else self._zoo(sub, series_ok=True, extreme=typed)
+        fam, fn = self._rowpred_typed(sub, dm) if typed else self._rowpred(sub, dm, extra=bool(given))
         before = self._snap(dm)
-        lits = self._lits(dm) if 'series' not in tags else None
+        lits = self._lits(dm) if 'series' not in tags else None       # (_lits is None for any table with a SeriesColumn)
         rec = Recorder(fn, True)
         ref = RefCalls(fn)
         explicit = sub.random() < 0.4
@@ -1090,11 +1223,11 @@ class C19:
         import numpy as np
         return np.array([w], dtype=ct.dtype)[0].item()
 
-    def _case_map_col(self, sub, typed=False, pending=None):
+    def _case_map_col(self, sub, typed=False, pending=None, given=None):
         """typed: a cell function that depends on the exact type / arithmetic of the cell, on a MixedColumn (the cells
         are handed over as they are); on a numeric column that is the pending finding F6"""
         from datamatrix import functional as fnc, MixedColumn
-        dm, tags = self._zoo(sub, extreme=typed)
+        dm, tags = given if given else self._zoo(sub, extreme=typed)
         name = self._pick_col(sub, dm, None, None if not typed else (['KFloat', 'KInt'] if pending else ['KMixed']))
         col = dm[name]
         fam, fn = self._cellmap_typed(sub) if typed else self._cellmap(sub)
@@ -1157,10 +1290,10 @@ class C19:
             res['tags'] = res['tags'] + ['python-side-only']
         return res
 
-    def _case_filter_col(self, sub, pending=None, typed=False):
+    def _case_filter_col(self, sub, pending=None, typed=False, given=None):
         import functools
         from datamatrix import functional as fnc
-        dm, tags = self._zoo(sub, extreme=typed)
+        dm, tags = given if given else self._zoo(sub, extreme=typed)
         if pending == 'F1' and not any(t.startswith('alias') for t in tags):
             dm.b = dm.a
             tags = tags + ['alias-after']
@@ -1237,10 +1370,10 @@ class C19:
             res['tags'] = res['tags'] + ['python-side-only']
         return res
 
-    def _case_setcol(self, sub, pending=None):
+    def _case_setcol(self, sub, pending=None, given=None):
         import numpy as np
         from datamatrix import functional as fnc, DataMatrix, MixedColumn, FloatColumn, IntColumn
-        dm, tags = self._zoo(sub, series_ok=True)
+        dm, tags = given if given else self._zoo(sub, series_ok=True)
         if pending == 'F2' and not any(t == 'alias-after' for t in tags) and 'b' not in dm:
             dm.b = dm.a
             tags = tags + ['alias-after']
@@ -1313,7 +1446,7 @@ class C19:
                 cv = '(CVCol %s %s)' % (vk, L.lst(O.val(v) for v in vcells))
             value_before = ([repr(v) for v in vcells], value._datamatrix, value.name if which != 'detached' else None)
         before = self._snap(dm)
-        lits = self._lits(dm) if 'series' not in tags else None
+        lits = self._lits(dm) if 'series' not in tags else None       # (_lits is None for any table with a SeriesColumn)
         outcome = O.outcome(lambda: fnc.setcol(dm, name_arg, value))
         in_model, obs_o, obs_m = self._observe_tab(outcome)
         problem = None
@@ -1386,6 +1519,184 @@ class C19:
             res['tags'] = res['tags'] + ['python-side-only']
         return res
 
+    # ---- the SAME table object used again and again, changed in place in between ---------------------------------
+    ADDED = ['c1', 'c2', 'c3', 'sx']
+
+    def _fill_rows(self, sub, dm, lo):
+        """write cells into the rows lo.. (the ones a resize added)"""
+        n = len(dm)
+        for nm, c in list(dm._cols.items()):
+            if sub.random() < 0.25:
+                continue                    # this column keeps its blank cells
+            for j in range(lo, n):
+                if hasattr(c, 'depth'):
+                    c[j] = [sub.randint(0, 5) if q == 0 else sub.choice([0.5, 1.5, float('nan')]) for q in range(c.depth)]
+                elif nm in ('u', 'v'):
+                    c[j] = 100 + j
+                else:
+                    k = KIND[type(c).__name__]
+                    c[j] = {'KMixed': lambda: sub.choice(self.MIX), 'KFloat': lambda: sub.choice(self.FLT),
+                            'KInt': lambda: sub.randint(-2, 3)}[k]()
+
+    def _inplace(self, sub, dm):
+        """one in-place change of the table object -> label.  The columns u, a, f, i (and s) the user functions read
+        are never removed or renamed; added columns are c1, c2, c3, sx."""
+        from datamatrix import MixedColumn, FloatColumn, IntColumn, SeriesColumn, operations as ops
+        m = len(dm)
+        what = sub.choice(['grow', 'grow', 'grow-fill', 'grow-fill', 'grow-fill', 'shrink-grow', 'shrink-grow', 'shrink',
+                           'delrow', 'delrow', 'cells', 'cells', 'slicewrite', 'newcol', 'newcol', 'delcol', 'assign',
+                           'depth', 'rename', 'side', 'nothing'])
+        if what in ('grow', 'grow-fill'):
+            dm.length = m + sub.choice([1, 1, 2, 3])
+            if what == 'grow-fill':
+                self._fill_rows(sub, dm, m)
+        elif what == 'shrink-grow':
+            keep = max(0, m - sub.choice([1, 1, 2, m]))
+            dm.length = keep
+            if sub.random() < 0.3:
+                _ = dm.i >= 0                      # a selection between the two resizes
+            dm.length = keep + sub.choice([1, 2, 3])
+            if sub.random() < 0.6:
+                self._fill_rows(sub, dm, keep)
+        elif what == 'shrink':
+            dm.length = max(0, m - sub.choice([1, 2]))
+        elif what == 'delrow':
+            if not m:
+                return 'nothing'
+            if sub.random() < 0.7:
+                del dm[sub.randrange(m)]
+            else:
+                del dm[sub.randrange(m):]          # a slice of rows
+        elif what == 'cells':
+            if not m:
+                return 'nothing'
+            for _ in range(sub.randint(1, 4)):
+                nm = sub.choice(list(dm._cols))
+                c, j = dm._cols[nm], sub.randrange(m)
+                if hasattr(c, 'depth'):
+                    if c.depth and sub.random() < 0.5:
+                        c[j, sub.randrange(c.depth)] = sub.choice([7, 2.5, float('nan')])
+                    else:
+                        c[j] = [sub.randint(0, 5)] * c.depth
+                elif nm in ('u', 'v'):
+                    c[j] = 200 + sub.randrange(50)
+                else:
+                    c[j] = self._value_for(sub, KIND[type(c).__name__], allow_bad=False)
+        elif what == 'slicewrite':
+            nm = sub.choice(['a', 'f', 'i'])
+            dm[nm][sub.choice([slice(1, None), slice(None, 2), slice(None, None, 2), slice(None)])] = sub.choice([0, 1, 2])
+        elif what == 'newcol':
+            free = [nm for nm in self.ADDED if nm not in dm._cols]
+            if not free:
+                return 'nothing'
+            nm = sub.choice(free)
+            if nm == 'sx':
+                dm[nm] = SeriesColumn(depth=sub.choice([1, 2, 3]))
+                for j in range(m):
+                    dm[nm][j] = [j] * dm[nm].depth
+                what = 'newcol-series'
+            else:
+                k = sub.choice(['type', 'type', 'list', 'scalar', 'copy'])
+                if k == 'type':
+                    dm[nm] = sub.choice([MixedColumn, FloatColumn, IntColumn])
+                elif k == 'list':
+                    dm[nm] = [sub.choice([1, 2.5, 'x', None]) for _ in range(m)]
+                elif k == 'scalar':
+                    dm[nm] = sub.choice([0, 'k', 1.5])
+                else:
+                    dm[nm] = dm[sub.choice(['f', 'i', 'a'])] * 1 if sub.random() < 0.5 else dm[sub.choice(['f', 'i'])] + 1
+        elif what == 'delcol':
+            have = [nm for nm in self.ADDED if nm in dm._cols]
+            if not have:
+                return 'nothing'
+            nm = sub.choice(have)
+            if sub.random() < 0.5:
+                del dm[nm]
+            else:
+                del dm[dm._cols[nm]]
+        elif what == 'assign':
+            nm = sub.choice(['i', 'f', 'a'])
+            k = KIND[type(dm._cols[nm]).__name__]
+            dm[nm] = [self._value_for(sub, k, allow_bad=False) for _ in range(m)]
+        elif what == 'depth':
+            ser = [nm for nm, c in dm._cols.items() if hasattr(c, 'depth')]
+            if not ser:
+                return 'nothing'
+            dm._cols[sub.choice(ser)].depth = sub.choice([1, 2, 3, 4])
+        elif what == 'rename':
+            have = [nm for nm in self.ADDED if nm in dm._cols]
+            free = [nm for nm in self.ADDED[:3] if nm not in dm._cols]
+            if not have or not free or have[0] == 'sx':
+                return 'nothing'
+            dm.rename(have[0], free[0])
+        elif what == 'side':
+            k = sub.choice(['select', 'sort', 'shuffle', 'copy', 'lookup'])
+            if k == 'select':
+                _ = dm.i >= 1
+            elif k == 'sort':
+                _ = ops.sort(dm, by=dm.u)
+            elif k == 'shuffle':
+                _ = ops.shuffle(dm)
+            elif k == 'copy':
+                _ = dm[:]
+            elif m:
+                _ = dm.a[dm]
+            what = 'side-' + k
+        return what
+
+    def _case_repeat(self, sub):
+        """map_ / filter_ / setcol applied to ONE table object 2-5 times; between two applications the object is changed
+        in place (rows added / removed / added after removal, rows deleted, cells written, columns added / deleted /
+        renamed / re-assigned, series depth changed, derivations thrown away).  Every application is judged like a
+        single case (by-value reference, audits, Coq oracle and model on the table as it is at that moment): the result
+        must be a function of the table's present value, not of what was done with the object before."""
+        dm, tags = self._zoo(sub, series_ok=True, series_p=0.65)
+        tags = list(tags)
+        trail, problem = [], None
+        o_parts, m_parts, outcomes = [], [], []
+        steps = sub.choice([2, 3, 3, 4, 4, 5])
+        all_tags = set(tags)
+        python_only = False
+        for step in range(steps):
+            kind = sub.choice(['filter_dm'] * 5 + ['map_dm'] * 2 + ['setcol'] * 2 + ['filter_col', 'map_col'])
+            here = list(tags) + (['series'] if any(hasattr(c, 'depth') for c in dm._cols.values()) and 'series' not in tags
+                                 else [])
+            try:
+                res = getattr(self, '_case_' + kind)(sub, given=(dm, here))
+            except Exception as e:      # noqa: BLE001
+                import traceback
+                res = {'pyfail': 'HARNESS: step raised %r (%s)' % (e, traceback.format_exc(limit=3).replace('\n', ' | ')[-300:])}
+            trail.append(kind)
+            outcomes.append((res.get('observed') or {}).get('outcome'))
+            if res.get('pyfail') and problem is None:
+                problem = 'application %d (%s) on the same table object after [%s]: %s' % (
+                    step + 1, kind, ', '.join(trail[:-1]), res['pyfail'])
+            if 'oracle' in res:
+                o_parts.append('(%s)' % res['oracle'])
+            if 'model' in res:
+                m_parts.append('(%s)' % res['model'])
+            if 'python-side-only' in res.get('tags', []):
+                python_only = True
+            all_tags.update(t for t in res.get('tags', []) if t.startswith(('p:', 'f:', 'v:', 'g:', 'q:')))
+            if step + 1 < steps:
+                for _ in range(sub.choice([1, 1, 1, 2])):
+                    try:
+                        ch = self._inplace(sub, dm)
+                    except Exception as e:      # noqa: BLE001
+                        # the in-place operations belong to other properties; here they only prepare the state
+                        ch = 'change-raised-' + O.exn_name(e)
+                    trail.append('<' + ch + '>')
+                    all_tags.add('chg:' + ch)
+        has_series = any(hasattr(c, 'depth') for c in dm._cols.values())
+        return {'pyfail': problem,
+                'tags': sorted(all_tags) + ['steps%d' % steps] + (['series-now'] if has_series else [])
+                + (['python-side-only'] if python_only and not o_parts else []),
+                'nontrivial': len(dm) > 0 or any(outcomes),
+                'sig': '%s|%s|%d' % ('+'.join(tags), '>'.join(trail), len(dm)),
+                'observed': {'trail': trail, 'outcomes': outcomes, 'problem': problem},
+                'oracle': ' && '.join(o_parts) if o_parts else 'true',
+                'model': ' && '.join(m_parts) if m_parts else 'true'}
+
     def _case_pending_F1(self, sub):
         return self._case_filter_col(sub, 'F1')
 
@@ -1452,6 +1763,9 @@ class C19:
         for kind in ('filter_col', 'filter_dm', 'map_col', 'map_dm', 'setcol'):
             for _ in range(per):
                 cases.append(self.probe(kind, rng.randrange(1 << 30)))
+        # the same table object used repeatedly, changed in place in between
+        for _ in range(per + per // 2):
+            cases.append(self.probe('repeat', rng.randrange(1 << 30)))
         for kind, k in (('typed_map_dm', per // 2), ('typed_filter_dm', per // 2), ('typed_map_col', per // 4),
                         ('typed_filter_col', per // 4)):
             for _ in range(k):
@@ -1473,30 +1787,60 @@ class C19:
                     i += k
                 paths = [path[:j] for j in range(1, len(path) + 1)]
                 cases.append(self.rerun({'n': n, 'paths': paths, 'tags': ['composition']}))
+        # the same for every other shape of the wrapped function (keyword-only settings, *rest, **options, defaults,
+        # positional-only, annotations, lambda, staticmethod, functools.partial objects): n is the number of positional
+        # parameters that are still open; quick: all compositions for arities 1..3 and one of each arity 4..6
+        shapes = SHAPES[1:] + (PENDING_SHAPES if INCLUDE_PENDING_FINDINGS else [])
+        for shape in shapes:
+            for n in range(1, 7):
+                comps = list(compositions(n))
+                if tier == 'quick' and n > 3:
+                    comps = [rng.choice(comps)]
+                for comp in comps:
+                    vals = [rng.randint(-50, 50) for _ in range(n)]
+                    path, i = [], 0
+                    for k in comp:
+                        path.append(vals[i:i + k])
+                        i += k
+                    paths = [path[:j] for j in range(1, len(path) + 1)]
+                    cases.append(self.rerun({'n': n, 'paths': paths, 'shape': shape, 'tags': ['composition-shaped']}))
+
+        def shaped(inp):
+            if rng.random() < 0.35:
+                inp['shape'] = rng.choice(SHAPES[1:])
+            return inp
+
         # prefix reuse trees (plain integers; chains advanced in a random interleaving)
         reps = 150 if tier == 'quick' else 3000
         for _ in range(reps):
             inp = self._reuse_tree(rng, lambda: rng.randint(-9, 9), False)
             if inp:
-                cases.append(self.rerun(inp))
+                cases.append(self.rerun(shaped(inp)))
         # the same with arguments that are equal but distinguishable
         npool = len(rich_pool())
         for _ in range(reps):
             inp = self._reuse_tree(rng, None, True, npool)
             if inp:
-                cases.append(self.rerun(inp))
+                cases.append(self.rerun(shaped(inp)))
         # outside the quantifier: only the model is compared
         for _ in range(60 if tier == 'quick' else 600):
             n = rng.randint(1, 5)
             path = []
             for _k in range(rng.randint(1, 4)):
                 path.append([rng.randint(-9, 9) for _ in range(rng.choice([0, 0, 1, 2, 3, n, n + 1]))])
-            cases.append(self.rerun({'n': n, 'paths': [path], 'tags': ['malformed']}))
+            cases.append(self.rerun(shaped({'n': n, 'paths': [path], 'tags': ['malformed']})))
         for _ in range(10 if tier == 'quick' else 60):
             n = rng.randint(1, 4)
             k = rng.randint(0, n - 1)
             cases.append(self.rerun({'n': n, 'paths': [[[rng.randint(-9, 9) for _ in range(k)]] if k else [[]]],
                                      'kw': {'a%d' % (n - 1): 3}, 'tags': ['keywords']}))
+        # a keyword-only setting of the wrapped function cannot be given to the curried one either (documented)
+        for _ in range(6 if tier == 'quick' else 40):
+            n = rng.randint(1, 4)
+            k = rng.randint(0, n)
+            shape, kw = rng.choice([('kwonly', {'unit': 'cm'}), ('kwargs', {'anything': 1}), ('kwonly2', {'scale': 2})])
+            cases.append(self.rerun({'n': n, 'paths': [[[rng.randint(-9, 9) for _ in range(k)]] if k else [[]]],
+                                     'kw': kw, 'shape': shape, 'tags': ['keywords']}))
         return cases
 
     # groups of pool indices whose members compare equal (or are indistinguishable by ==/hash) but are different objects
@@ -1564,8 +1908,10 @@ class C19:
     def key(self, case):
         if 'probe' in case['input']:
             return 'probe %s' % case['input']['probe']
-        return 'curry n=%d %spaths=%s' % (case['input']['n'], 'rich ' if case['input'].get('rich') else '',
-                                          json_compact(case['input']['paths']))
+        shape = case['input'].get('shape', 'plain')
+        return 'curry n=%d %s%spaths=%s' % (case['input']['n'], 'rich ' if case['input'].get('rich') else '',
+                                            '' if shape == 'plain' else 'shape=%s ' % shape,
+                                            json_compact(case['input']['paths']))
 
 
 def json_compact(x):
